@@ -14,6 +14,14 @@ def models(chk, thorough):
         ["%d_%d" % (pl, p) for pl in (1, 2, 3, 5) for p in (1, 2, 3)]
     for c in cfgs:
         chk.model("MC_Mpi", "MC_Mpi_" + c, workers=4, deadlock=True, what="MC_Mpi plan %s ranks %s: MpiInv, no deadlock, all interleavings" % tuple(c.split("_")))
+    live = vt.tlc("MC_Mpi", "MC_Mpi_live", workers=4, tag="C04")
+    chk.add_tlc("MC_Mpi_live: liveness under weak fairness - every behaviour ends with all ranks returned (PROPERTY Termination)", live)
+    if live.rc != 0 or "No error has been found" not in live.out:
+        raise vt.MachineryError("liveness check of Mpi.tla failed:\n" + live.tail())
+    live2 = vt.tlc("MC_Mpi", "MC_Mpi_live_skip", workers=4, tag="C04")
+    chk.add_tlc("MC_Mpi_live_skip: the skip-collective alternative violates Termination (non-vacuity)", live2)
+    if "Temporal property Termination was violated" not in live2.out:
+        raise vt.MachineryError("non-vacuity: Termination not violated by the skip-collective alternative:\n" + live2.tail())
     res = vt.tlc("MC_Mpi", "MC_Mpi_skip", workers=4, deadlock=True, tag="C04")
     chk.add_tlc("MC_Mpi_skip (a rank without calls skips the second collective): deadlock expected", res)
     if "Deadlock reached" not in res.out:
